@@ -42,6 +42,10 @@ func (d *dumper) parseContracts(p *packages.Package, lines []*contractSrc, decls
 			return
 		}
 		fd := decls[curKey]
+		if _, isIface := cur["flags"].(map[string]any)["iface"]; isIface {
+			out[curKey] = cur
+			return
+		}
 		if fd == nil {
 			cur["error"] = "no such function in package: " + curKey
 			d.errors = append(d.errors, fmt.Sprintf("%s: contract for unknown function %s", p.PkgPath, curKey))
@@ -57,7 +61,7 @@ func (d *dumper) parseContracts(p *packages.Package, lines []*contractSrc, decls
 		cur["clauses"] = cl
 		out[curKey] = cur
 	}
-	kw := regexp.MustCompile(`^\s*(func|requires|ensures|loop|trusted|pure|opaque|canary|assume|modifies|nosafety|unfold|inline|bounded|note)\b(.*)$`)
+	kw := regexp.MustCompile(`^\s*(func|iface|requires|ensures|loop|trusted|pure|abstract|stub|opaque|canary|assume|modifies|nosafety|noframe|unfold|inline|bounded|note)\b(.*)$`)
 	for _, l := range lines {
 		m := kw.FindStringSubmatch(l.text)
 		if m == nil {
@@ -76,7 +80,20 @@ func (d *dumper) parseContracts(p *packages.Package, lines []*contractSrc, decls
 			cur = map[string]any{"key": rest, "ln": ln, "flags": map[string]any{}}
 			clauses = nil
 			last = nil
-		case "trusted", "pure", "opaque", "nosafety", "inline", "bounded", "note", "modifies", "unfold":
+		case "iface":
+			// iface T.M : contract block of an interface method, keyed (T).M
+			flush()
+			parts := strings.SplitN(rest, ".", 2)
+			if len(parts) != 2 {
+				d.errors = append(d.errors, fmt.Sprintf("%s:%d: bad iface clause %q", l.file, ln, rest))
+				cur = nil
+				continue
+			}
+			curKey = "(" + parts[0] + ")." + parts[1]
+			cur = map[string]any{"key": curKey, "ln": ln, "flags": map[string]any{"iface": true}}
+			clauses = nil
+			last = nil
+		case "trusted", "pure", "abstract", "stub", "opaque", "nosafety", "noframe", "inline", "bounded", "note", "modifies", "unfold":
 			if cur != nil {
 				cur["flags"].(map[string]any)[m[1]] = rest
 			}
